@@ -287,8 +287,8 @@ let key_of_logs (logs : (int * int * string) list) : string =
 
 let rleak_str = function RLArc -> "arc" | RLAlloc -> "alloc" | RLMsgs -> "msgs"
 
-let ref_keys (p : prog) : string list =
-  let outs = ref_outcomes big_fuel p in
+let ref_keys (weak : bool) (p : prog) : string list =
+  let outs = ref_outcomes weak big_fuel p in
   let tbl = Hashtbl.create 64 in
   List.iter
     (fun o ->
@@ -343,7 +343,7 @@ let keys_file which file =
          let id, p = parse_prog line in
          Printf.printf "PROG %d %s\n" !n id;
          (match which with
-         | `Ref -> List.iter (fun k -> Printf.printf "K %s\n" k) (ref_keys p)
+         | `Ref w -> List.iter (fun k -> Printf.printf "K %s\n" k) (ref_keys w p)
          | `Model ->
              let ks, fin = model_keys p in
              List.iter (fun k -> Printf.printf "K %s\n" k) ks;
@@ -517,7 +517,8 @@ let () =
   match strip args with
   | [ _; "run"; f ] -> run_file f
   | [ _; "replay"; f ] -> replay_file f
-  | [ _; "ref"; f ] -> keys_file `Ref f
+  | [ _; "ref"; f ] -> keys_file (`Ref false) f
+  | [ _; "refw"; f ] -> keys_file (`Ref true) f
   | [ _; "keys"; f ] -> keys_file `Model f
   | _ ->
       prerr_endline "usage: driver run|ref|keys <programs> | replay <harness-output>";
